@@ -23,11 +23,21 @@ type cancelReq struct {
 	threads int
 	k       int
 	p0      int
+	delay   int // k < 0 (asynchronous): Cancel() is called after this many microseconds, wherever the call is by then
 	ref     *core.N
 	boots   []*core.N
 }
 
-func (q cancelReq) arg() string { return fmt.Sprintf("%s;%d;%d;%d", q.kind, q.threads, q.k, q.p0) }
+func (q cancelReq) kField() string {
+	if q.k < 0 {
+		return fmt.Sprintf("async%d", q.delay)
+	}
+	return fmt.Sprint(q.k)
+}
+
+func (q cancelReq) arg() string {
+	return fmt.Sprintf("%s;%d;%s;%d", q.kind, q.threads, q.kField(), q.p0)
+}
 
 func parseCancelArg(a string, ref *core.N, boots []*core.N) cancelReq {
 	q := cancelReq{kind: "fbp", threads: 1, ref: ref, boots: boots}
@@ -35,7 +45,12 @@ func parseCancelArg(a string, ref *core.N, boots []*core.N) cancelReq {
 	if len(f) == 4 {
 		q.kind = f[0]
 		fmt.Sscanf(f[1], "%d", &q.threads)
-		fmt.Sscanf(f[2], "%d", &q.k)
+		if strings.HasPrefix(f[2], "async") {
+			q.k = -1
+			fmt.Sscanf(f[2][5:], "%d", &q.delay)
+		} else {
+			fmt.Sscanf(f[2], "%d", &q.k)
+		}
 		fmt.Sscanf(f[3], "%d", &q.p0)
 	}
 	return q
@@ -48,7 +63,7 @@ func inprocCancel(q cancelReq) result {
 	for i := 0; i < q.p0; i++ {
 		sup.IncrementProgress()
 	}
-	if q.k <= 0 {
+	if q.k == 0 {
 		sup.Cancel()
 	}
 	ch := make(chan tree.Trees) // unbuffered: the producer decides when each tree is handed over
@@ -77,6 +92,16 @@ func inprocCancel(q cancelReq) result {
 			}
 		}
 	}()
+	if q.k < 0 {
+		// asynchronous: the cancellation arrives at some moment of the call, in the middle of a tree as well
+		go func() {
+			select {
+			case <-time.After(time.Duration(q.delay) * time.Microsecond):
+				sup.Cancel()
+			case <-done:
+			}
+		}()
+	}
 	out, _ := guarded(func() error {
 		if q.kind == "fbp" {
 			return support.FBP(t, ch, q.threads, sup)
@@ -109,7 +134,7 @@ func runCancel(q cancelReq) (out, after, prog string) {
 
 func doCancel(c *core.Ctx, q cancelReq) {
 	out, after, prog := runCancel(q)
-	c.Emit("C10.cancel", q.kind, fmt.Sprint(q.threads), fmt.Sprint(q.k), fmt.Sprint(q.p0), q.ref.Dump(), core.Dumps(q.boots),
+	c.Emit("C10.cancel", q.kind, fmt.Sprint(q.threads), q.kField(), fmt.Sprint(q.p0), q.ref.Dump(), core.Dumps(q.boots),
 		out, after, prog)
 }
 
@@ -141,5 +166,30 @@ func cancelCase(c *core.Ctx) {
 			spoilTaxa(g, q.boots[lo+g.Intn(n-lo)])
 		}
 	}
+	doCancel(c, q)
+}
+
+// cancelAsyncCase: Cancel() after a random delay, 20..60 trees: it lands before the call, between two trees, in the
+// middle of a tree or after the last one.  Judged on the number of trees the call itself reports as finished
+// (Progress() - p0): the supports must be the definitions over exactly those first trees.  FBP with one worker
+// (with several the finished trees are not a prefix), TBE with any number.
+func cancelAsyncCase(c *core.Ctx) {
+	g := c.G
+	saved := smallFirst
+	smallFirst = g.Chance(0.3)
+	ref := refTree(c)
+	smallFirst = saved
+	q := cancelReq{kind: []string{"fbp", "tbe"}[g.Intn(2)], threads: 1, ref: ref, k: -1, p0: []int{0, 0, 2}[g.Intn(3)]}
+	if q.kind == "tbe" && g.Chance(0.3) {
+		q.threads = threadChoices[g.Intn(len(threadChoices))]
+	}
+	var variants []*core.N
+	for v := 2 + g.Intn(3); v > 0; v-- {
+		variants = append(variants, bootTree(c, ref))
+	}
+	for n := 20 + g.Intn(40); n > 0; n-- {
+		q.boots = append(q.boots, variants[g.Intn(len(variants))])
+	}
+	q.delay = g.Intn(4000)
 	doCancel(c, q)
 }
